@@ -46,7 +46,9 @@ def instances(tier, seed):
                         add(mode="svd", m=m, n=n, ql=ql, qr=qr, qt=qt, system="L", full=False)
                     if tier == "thorough" or (m, n) == (2, 2):
                         add(mode="svd", m=m, n=n, ql=ql, qr=qr, qt=qt, system="L", full=True)
-                    if m == n or tier == "thorough":
+                    if m == n and m <= 2 or (tier == "thorough" and m * n <= 4):
+                        # eigh_qn diagonalises the (dimension of the larger side)^2 density matrix block by block: with a 3-dimensional side the
+                        # reconstruction obligation stays `unknown` at the budget (outside the bound); 2x2 with every label pattern is covered in both tiers
                         add(mode="eigh", m=m, n=n, ql=ql, qr=qr, qt=qt, system="L", full=False)
                         add(mode="eigh", m=m, n=n, ql=ql, qr=qr, qt=qt, system="R", full=False)
     # symbolic-label instances: every label is a solver integer in {0,1}
